@@ -79,6 +79,11 @@ class BatchDocumentConverter(object):
                 else:
                     link_type = None
 
+        if link_type is None:
+            # Not a document in which links can be converted (an image,
+            # a PDF, plain text, ...). Leave the file as it is.
+            return
+
         _logger.info(__(
             _('Converting links in file ‘{filename}’ (type={type}).'),
             filename=filename, type=link_type
